@@ -7,7 +7,6 @@ import (
 	"github.com/polydawn/go-timeless-api/rio"
 	"github.com/polydawn/rio/fs"
 	nilFS "github.com/polydawn/rio/fs/nilfs"
-	"github.com/polydawn/rio/fs/osfs"
 	. "github.com/warpfork/go-errcat"
 )
 
@@ -64,9 +63,9 @@ func CreateScanner(t api.PackType, unpacker unpackFn) rio.ScanFunc {
 		//  if not, it's a bunch of no-op'ing functions.
 		var afs fs.FS
 		switch placementMode {
-		case rio.Placement_None:
-			afs = osfs.New(fs.MustAbsolutePath("/nope/nope")) // TODO cache
-		case rio.Placement_Direct:
+		case rio.Placement_None, rio.Placement_Direct:
+			// (There is no caching of scans yet: both modes read, hash, and keep nothing.
+			//  "none" used to unpack into a placeholder path, /nope/nope -- for real, if that happened to exist.)
 			afs = nilFS.New()
 		default:
 			return api.WareID{}, Errorf(rio.ErrUsage, "scan supports placement modes %q and %q only, not %q", rio.Placement_None, rio.Placement_Direct, placementMode)
